@@ -45,6 +45,8 @@ type Case struct {
 	K           int       `json:"k,omitempty"`
 }
 
+var readFaultKinds = []string{"error", "eof", "error-with-data", "error-with-data-then-eof", "error-then-eof"}
+
 // faultReader delivers data in chunks and injects a fault after `limit` bytes.
 type faultReader struct {
 	data        []byte
@@ -56,6 +58,9 @@ type faultReader struct {
 	dataWithEOF bool
 	zeroReads   bool
 	zeroNext    bool
+	withData    bool // the fault is reported by the Read call that delivers the last bytes before the fault point
+	thenEOF     bool // after the fault has been reported once, further calls return a clean io.EOF (a length-bounded frame)
+	reported    bool
 }
 
 func (r *faultReader) Read(p []byte) (int, error) {
@@ -74,6 +79,10 @@ func (r *faultReader) Read(p []byte) (int, error) {
 	}
 	if r.pos >= end {
 		if r.limit >= 0 && r.pos >= r.limit {
+			if r.reported && r.thenEOF {
+				return 0, io.EOF
+			}
+			r.reported = true
 			return 0, r.ferr
 		}
 		return 0, io.EOF
@@ -93,6 +102,10 @@ func (r *faultReader) Read(p []byte) (int, error) {
 	r.pos += n
 	if r.dataWithEOF && r.pos == len(r.data) && r.limit < 0 {
 		return n, io.EOF
+	}
+	if r.withData && r.limit >= 0 && r.pos == end {
+		r.reported = true
+		return n, r.ferr
 	}
 	return n, nil
 }
@@ -358,6 +371,16 @@ func run(c *h.Ctx, cs Case) {
 			k = cs.K % (len(art) + 1)
 		}
 		r := &faultReader{data: art, limit: k, ferr: ferr, chunk: cs.Chunk}
+		switch cs.FaultKind {
+		case "error-with-data":
+			// the error comes back from the same Read call as the last bytes before the fault, then the error again
+			r.withData = true
+		case "error-with-data-then-eof":
+			// ... then a clean EOF, as behind io.LimitReader / a length-bounded frame
+			r.withData, r.thenEOF = true, true
+		case "error-then-eof":
+			r.thenEOF = true
+		}
 		var got outcome
 		if pn, pv, _ := h.Try(func() { got = readStream(cs, b.kind, r) }); pn {
 			c.Fail("C18/read/panic/"+api, "stream reader panicked with a fault after %d bytes: %v", k, pv)
@@ -519,7 +542,7 @@ func draw(t *rapid.T) Case {
 		cs.DataWithEOF = rapid.Bool().Draw(t, "dweof")
 		cs.ZeroReads = false // (0, nil) reads are outside the property's chunkings; see DESIGN.md, C18 false alarm
 	case "readfault":
-		cs.FaultKind = rapid.SampledFrom([]string{"error", "eof"}).Draw(t, "fk")
+		cs.FaultKind = rapid.SampledFrom(readFaultKinds).Draw(t, "fk")
 		cs.K = rapid.IntRange(0, 20000).Draw(t, "k")
 	default:
 		cs.FaultKind = rapid.SampledFrom([]string{"", "fail", "short"}).Draw(t, "wfk")
@@ -582,7 +605,7 @@ func TestFaultEnumeration(t *testing.T) {
 				}
 				// read faults at every offset
 				for k := 0; k <= len(b.bytes); k++ {
-					for _, fk := range []string{"error", "eof"} {
+					for _, fk := range readFaultKinds {
 						if k == len(b.bytes) && fk == "eof" {
 							continue
 						}
